@@ -20,13 +20,17 @@ import (
 
 // RealWorld = real manager + real graphsync transport over the fake graph exchange.
 type RealWorld struct {
-	GS  *doubles.FakeGS
-	T   *dtgs.Transport
-	Net *doubles.RecNet
-	DS  *doubles.RecDS
-	Mgr datatransfer.Manager
-	Val *doubles.RecValidator
+	GS      *doubles.FakeGS
+	T       *dtgs.Transport
+	Net     *doubles.RecNet
+	DS      *doubles.RecDS
+	Mgr     datatransfer.Manager
+	Val     *doubles.RecValidator
+	stopped bool
 }
+
+// MarkStopped tells Close that the manager was already stopped by the test body.
+func (w *RealWorld) MarkStopped() { w.stopped = true }
 
 func NewRealWorld() *RealWorld {
 	w := &RealWorld{GS: doubles.NewFakeGS(), Net: &doubles.RecNet{Self: doubles.PeerA}, DS: doubles.NewRecDS(), Val: &doubles.RecValidator{}}
@@ -48,7 +52,10 @@ func NewRealWorld() *RealWorld {
 }
 
 func (w *RealWorld) Close() {
-	_ = w.Mgr.Stop(context.Background())
+	if !w.stopped {
+		w.stopped = true
+		_ = w.Mgr.Stop(context.Background())
+	}
 	for _, r := range w.GS.Reqs {
 		w.GS.Finish(r.Num, nil)
 	}
